@@ -4,15 +4,15 @@ package sx
 // text, push/pop per query, any "(error" line makes the answer inconclusive.
 
 import (
-	"os"
-	"sync/atomic"
 	"bufio"
 	"fmt"
 	"io"
+	"os"
 	"os/exec"
 	"strconv"
 	"strings"
 	"sync"
+	"sync/atomic"
 	"time"
 )
 
